@@ -19,12 +19,19 @@ pub fn plan(ctx: &Ctx) -> Vec<(Cfg, usize, usize)> {
             v.push((c(roles, mesh, 1, 11), 3, 2));
         }
         v.push((c(0, 2, 0, 11), 4, 2));
+        // prepared state "mesh_n_low inbound members, outbound quota unmet"
+        v.push((c(0, 3, 2, 11), 3, 2));
     } else {
         for seed in [11u64, 22, 33, 44] {
             for roles in [0u8, 1, 2] {
                 for mesh in [1u8, 2, 3] {
                     v.push((c(roles, mesh, 1, seed), 4, 3));
                 }
+            }
+        }
+        for seed in [11u64, 22] {
+            for roles in [0u8, 2] {
+                v.push((c(roles, 3, 2, seed), 4, 3));
             }
         }
         v.push((c(0, 2, 1, 11), 5, 3));
